@@ -185,3 +185,26 @@ CHECKS['C20'] = {
 
 ALL = [f'C{i:02d}' for i in range(1, 21)]
 NOT_APPLICABLE = {p: PENDING for p in ALL if p not in CHECKS}
+
+
+# ---- additions made after the seeded rounds 2-4 and the mutation audits (DESIGN.md section 3, last paragraphs)
+ADDENDA = {
+    'C02': ' Also: the pot arithmetic of C01 re-filed as C02.amounts (layers, merge, rake plumbing, quotient to every winner / board / hand type and '
+           'the odd chips to the first of them), the face-up flags of a partial show (only tabled cards take part), the hand-type list in loop or comprehension form.',
+    'C04': ' Also: strict prime lookup of the rank hash, the full shape of the dense re-indexing, the window arithmetic of the straights, the None key of has_entry, unknown_status.',
+    'C07': ' Also: C07.no_overdraw (amounts taken from a stack are bounded by it), C07.available (per-player steps and fold/check/bring-in are refused '
+           'only for reasons the phase-end condition knows), C07.phase_check, the street closed only where chips pushing begins.',
+    'C08': ' Also: every public verifier asks its phase verifier first; the operation itself neither raises nor warns.',
+    'C12': ' Also: C12.show_flags (exactly the named cards are face up).',
+    'C14': ' Also: board_dealing_count / verify_board_dealing (which board is dealt next).',
+    'C15': ' Also: no field stores a closure / lambda / bound method / partial over the instance; contents of the BetCollection and HoleDealing records.',
+    'C16': ' Also: every written action text compared part by part (f-strings included); parse_value reads back what dumps writes.',
+    'C18': ' Also: per-sample isolation (copies), disjoint distribution of the drawn cards, mapper choice, number of opponents, statistics sources.',
+    'C19': ' Also: the number / mapping / iterable arms reject nothing.',
+    'C20': ' Also: the four-way button summary of _get_ordered_players; utilities.rotated.',
+}
+COMMON = (' Every check also runs the definite-assignment clauses <PID>.defined over the functions the property is anchored in (no read of an '
+          'undefined name, no local left unbound by a falling-through handler or if-arm), on sources put into normal form first (unknown helpers '
+          'inlined at their call sites, functional spellings of the loop idioms, adjacent single-use locals, conditional expressions).')
+for _pid, _c in CHECKS.items():
+    _c['level'] = _c['level'] + ADDENDA.get(_pid, '') + COMMON
